@@ -135,6 +135,20 @@ impl<'a> Eval<'a> {
             return None;
         }
         let Some(t1v) = run.get("t1") else {
+            if is_cli && run.get("modified").and_then(|m| m.as_bool()) == Some(false) {
+                // the command line left Veryl.lock untouched = "not modified";
+                // its table is not observable
+                self.classes.insert("cli: lock file left untouched".into());
+                if unchanged {
+                    self.classes.insert(if force { "unchanged:update-twice".into() } else { "unchanged:re-resolve".into() });
+                }
+                let all_highest = disk
+                    .as_ref()
+                    .map(|d| d.all_highest && d.releases == self.releases && d.epoch == self.epoch)
+                    .unwrap_or(false);
+                *disk = Some(DiskInfo { epoch: self.epoch, all_highest: all_highest || force, releases: self.releases });
+                return None;
+            }
             self.fail("harness:table", format!("run {tag}: no table"));
             return None;
         };
@@ -214,13 +228,7 @@ impl<'a> Eval<'a> {
                 .map(|d| d.all_highest && d.releases == self.releases && d.epoch == self.epoch)
                 .unwrap_or(false)
         };
-        if !is_cli || modified.is_some() || !existed {
-            *disk = Some(DiskInfo { epoch: self.epoch, all_highest, releases: self.releases });
-        } else {
-            // CLI run: whether it rewrote the file is not observed; the file
-            // holds a valid result for the current declarations either way
-            *disk = Some(DiskInfo { epoch: self.epoch, all_highest: false, releases: self.releases });
-        }
+        *disk = Some(DiskInfo { epoch: self.epoch, all_highest, releases: self.releases });
         Some(t1)
     }
 
@@ -241,6 +249,15 @@ impl<'a> Eval<'a> {
             );
             return;
         }
+        if let (Some(ma), Some(mb)) = (ra.get("modified").and_then(|m| m.as_bool()), rb.get("modified").and_then(|m| m.as_bool())) {
+            if ma != mb {
+                self.fail(
+                    "nondeterministic-modified-flag",
+                    format!("from one state: run A reports modified={ma}, run B (cli={}) modified={mb}", rb.get("cli").is_some()),
+                );
+                return;
+            }
+        }
         let (Some(ta), Some(tb)) = (ta, tb) else { return };
         if model::canon_table(ta, false, true) != model::canon_table(tb, false, true) {
             self.fail(
@@ -248,11 +265,6 @@ impl<'a> Eval<'a> {
                 format!("from one state: run A gives {} , run B gives {}", model::show_table(ta), model::show_table(tb)),
             );
             return;
-        }
-        if let (Some(ma), Some(mb)) = (ra.get("modified").and_then(|m| m.as_bool()), rb.get("modified").and_then(|m| m.as_bool())) {
-            if ma != mb {
-                self.fail("nondeterministic-modified-flag", format!("run A modified={ma}, run B modified={mb}"));
-            }
         }
         if model::canon_table(ta, true, true) != model::canon_table(tb, true, true) {
             self.fail(
